@@ -16,6 +16,14 @@ WCase(p) == [p |-> DotJoin(p), w |-> IF HasStar(p) THEN "1" ELSE "0", core |-> O
 Emit == PrintT(ToJson([f |-> "legacy", m |-> m, ks |-> SetToSeq({PCase(k) : k \in SearchKeys}), ps |-> SetToSeq({WCase(p) : p \in Paths}),
                        bound |-> SetToSeq(DOMAIN Bindings), oos |-> SetToSeq(OutOfScope)]))
 Spec == GenSpec
+\* beyond the builder's reach in depth: chains of nested maps / repeated elements 4 to 10 levels deep, with a sibling
+\* key walked after every hit (the wrappers keep their own trail of the path walked so far)
+RECURSIVE DChain(_)
+DChain(n) == IF n = 0 THEN VS("x") ELSE VM(("a" :> DChain(n - 1)) @@ ("b" :> VS("x")) @@ ("c" :> VS("<&")))
+RECURSIVE EChain(_)
+EChain(n) == IF n = 0 THEN VS("x") ELSE VM("a" :> VL(<<VM(("b" :> VS("x")) @@ ("a" :> EChain(n - 1))), VM("c" :> VS("x"))>>))
+DeepFam == {DChain(n) : n \in {3, 4, 5, 6, 8, 10}} \cup {EChain(n) : n \in {2, 3, 4, 5}}
+SpecDeep == m \in DeepFam /\ b1 = EmptyMap /\ b2 = EmptyMap /\ [][UNCHANGED genvars]_genvars
 cScalars == {VS("x"), VS("<&")}
 cConts == {EmptyMap, EmptyList}
 =============================================================================
